@@ -435,3 +435,9 @@ mod tests {
         }
     }
 }
+
+#[cfg(kani)]
+#[allow(warnings, clippy::all, clippy::pedantic)]
+mod verif_kani {
+    include!(concat!(env!("IPA_VERIF_DIR"), "/harness/root.rs"));
+}
